@@ -54,6 +54,7 @@ pub fn all() -> Vec<Scenario> {
         Scenario { name: "node_linked_while_its_input_is_lifted", props: &["C02", "C11", "C04"], run: node_linked_while_its_input_is_lifted },
         Scenario { name: "perkey_result_dropped_input_node_kept", props: &["C12", "C04", "C16"], run: perkey_result_dropped_input_node_kept },
         Scenario { name: "nested_scope_node_not_lifted_with_outer_bind", props: &["C03", "C02", "C11"], run: nested_scope_node_not_lifted_with_outer_bind },
+        Scenario { name: "leaf_several_binds_down_jumps_the_queue", props: &["C03", "C02"], run: leaf_several_binds_down_jumps_the_queue },
         Scenario { name: "nested_scope_node_jumps_the_queue", props: &["C03", "C02"], run: nested_scope_node_jumps_the_queue },
         Scenario { name: "mapref_projection_of_superseded_bind_run", props: &["C03"], run: mapref_projection_of_superseded_bind_run },
         Scenario { name: "expert_edge_callback_of_superseded_bind_run", props: &["C03"], run: expert_edge_callback_of_superseded_bind_run },
@@ -1583,6 +1584,74 @@ fn observe_from_observability_callback() -> Result<(), String> {
         let a = st.verif_audit();
         check!(a.is_empty(), "keep={keep}: audit: {}", a.join(" / "));
         kept.borrow_mut().clear();
+    }
+    Ok(())
+}
+
+
+/// `nested_scope_node_jumps_the_queue` with more levels (regression input for the recursion in
+/// `Scope::deep_height`, fix #26; seeded change C02-K looks at one level only): `depth` binds nested
+/// in each other, the innermost builds `leaf = x.map(|x| x * k)` with the *outermost* bind's input
+/// captured. The leaf and the outermost bind stay in use, the binds in between do not.
+fn leaf_several_binds_down_jumps_the_queue() -> Result<(), String> {
+    type S = Rc<RefCell<Option<Incr<i64>>>>;
+    fn level(no: usize, k: i64, unit: Incr<i64>, x: Incr<i64>, slots: Vec<S>, k_now: Rc<Cell<i64>>, runs: Rc<RefCell<Vec<(i64, i64, i64)>>>, st: incremental::WeakState) -> Incr<i64> {
+        if no == slots.len() {
+            return x.map(move |&x| {
+                runs.borrow_mut().push((k, k_now.get(), x));
+                x * k
+            });
+        }
+        let unit2 = unit.clone();
+        unit.bind(move |_| {
+            let inner = level(no + 1, k, unit2.clone(), x.clone(), slots.clone(), k_now.clone(), runs.clone(), st.clone());
+            *slots[no].borrow_mut() = Some(inner);
+            st.constant(0i64)
+        })
+    }
+    for depth in 2..=4usize {
+        let st = IncrState::new();
+        let (k, x, unit) = (st.var(1i64), st.var(10i64), st.var(0i64));
+        let k_now = Rc::new(Cell::new(1i64));
+        let runs: Rc<RefCell<Vec<(i64, i64, i64)>>> = Rc::new(RefCell::new(vec![]));
+        let slots: Vec<S> = (0..depth).map(|_| Rc::new(RefCell::new(None))).collect();
+        let outer = {
+            let (unit, x, slots, k_now, runs, stw) = (unit.watch(), x.watch(), slots.clone(), k_now.clone(), runs.clone(), st.weak());
+            k.bind(move |&k| {
+                let inner = level(1, k, unit.clone(), x.clone(), slots.clone(), k_now.clone(), runs.clone(), stw.clone());
+                *slots[0].borrow_mut() = Some(inner);
+                stw.constant(0i64)
+            })
+        };
+        let _outer_obs = outer.observe();
+        st.stabilise();
+        let mut held = vec![];
+        let mut nodes = vec![]; // every level's handle is kept until the end (K4)
+        for slot in &slots {
+            let node = slot.borrow().clone().ok_or_else(|| format!("depth {depth}: a level was not built"))?;
+            held.push(node.observe());
+            nodes.push(node);
+            st.stabilise();
+        }
+        let leaf_obs = held.pop().unwrap();
+        check!(leaf_obs.try_get_value() == Ok(10), "depth {depth}: leaf {:?}", leaf_obs.try_get_value());
+        drop(held); // the binds in between are no longer in use
+        st.stabilise();
+        x.set(11);
+        st.stabilise();
+        check!(leaf_obs.try_get_value() == Ok(11), "depth {depth}: leaf after an ordinary change {:?}", leaf_obs.try_get_value());
+        runs.borrow_mut().clear();
+        x.set(12); // the leaf's input first, then the outermost bind's
+        k.set(2);
+        k_now.set(2);
+        st.stabilise();
+        for (captured, now, xv) in runs.borrow().iter() {
+            check!(captured == now, "depth {depth}: the leaf function ran on x = {xv} with the stale bind input {captured} (now {now})");
+        }
+        check!(leaf_obs.try_get_value() == Err(ObserverError::ObservingInvalid), "depth {depth}: leaf reads {:?}", leaf_obs.try_get_value());
+        let a = st.verif_audit();
+        check!(a.is_empty(), "depth {depth}: audit: {}", a.join(" / "));
+        drop(nodes);
     }
     Ok(())
 }
